@@ -149,6 +149,38 @@ CHECKS['C07'] = dict(
     technique='Coq gen/kill theory + generated transfer + reflective per-program fixed-point checks + CPython use-before-overwrite oracle',
     design='4/C07')
 
+CHECKS['C03'] = dict(
+    text='Kernel-checked theorems over tables regenerated from the current converter templates, operator sources and docs: names / getter / '
+         'setter alignment and call wiring for arbitrary variable lists; get/set laws on an environment + heap model; nouts bounds and '
+         'outputs-first for the current formulas; callback arities (converter = operator implementation = documented example). Every dynamic '
+         'operator invocation of ~425 generated programs is judged against the property text by instrumented operators. Partial: attachment '
+         'of directives to loops is validated dynamically, not proved; the laws carry the guards of three known findings.',
+    note=NOTE_BASE + 'Trusted: translator shape recognition, templates.replace splicing semantics and Python sorted (validated by the static '
+         'correspondence), heap objects modelled as plain records, while-loop identification via the source map.',
+    technique='generated tables + Coq proofs by computation/induction + in-Coq correspondence + instrumented-operator oracle',
+    design='4/C03')
+CHECKS['C04'] = dict(
+    text='Kernel-checked reflective theorem: any pass-table pipeline satisfying the decidable traversal/ordering discipline leaves no native '
+         'overloadable construct outside the documented exemptions, for all programs (structural induction) and all option sets; the tables '
+         '(per visit_* method: fields traversed, replaced or not, kinds introduced by templates; pass order; feature gates; grammar) are '
+         'regenerated from the converter sources on every run and table_ok is re-proved by vm_compute. Partial: the pass semantics is an '
+         'abstraction (templates reduced to the kinds they introduce), tied by exhaustive behavioural probing and survivor correspondence '
+         'rather than by proof; static + dynamic routing oracle on planted constructs.',
+    note=NOTE_BASE + 'spec_exempt / spec_natives are the reading of the property text; material hidden in EXTRA_LOOP_TEST annotations is '
+         'attributed to the pass that creates it; visit_BoolOp pinned by AST hash.',
+    technique='reflection over generated traversal tables + probing + static/dynamic routing oracle',
+    design='4/C04')
+CHECKS['C09'] = dict(
+    text='Kernel-checked theorems over an executable model of erase / wrap / instantiate: cells are matched by name for any free-variable '
+         'order and never mis-bound (the conversion raises otherwise); the parameter list and default objects are preserved with no user '
+         'code evaluated; the globals dict is passed through; top-level decorators are dropped -- for every configuration satisfying a '
+         'decidable discipline re-proved for the table regenerated from the source on each run. The end-to-end cell-sharing theorem is '
+         'partial (CPython name resolution / FunctionType / cells are a validated hand model).',
+    note=NOTE_BASE + 'CPython name resolution, FunctionType and cell semantics are compared with symtable / co_freevars / object identity on '
+         '~425 generated functions per run; other passes are assumed not to edit the parameter list (checked per case).',
+    technique='generated config + induction over name/cell lists + per-run cfg_ok + vm_compute correspondence + differential oracle',
+    design='4/C09')
+
 NOT_YET = {}
 
 
